@@ -14,3 +14,63 @@ Qed.
 Lemma history_no_heap_panic fuel max_height ops :
   Forall (fun e => forall t, e.1.1 = Panic t -> Qri t) (run_history fuel max_height true ops).
 Proof. unfold run_history. apply run_no_heap_panic. split; [done|apply rch_inv_init]. Qed.
+
+(* ---- timestamps (all builds) *)
+From RecordUpdate Require Import RecordUpdate.
+From Incr.Proofs Require Import Stamps FrameStampsOk FrameStamped.
+
+Lemma history_stamps_ok fuel max_height dbg ops :
+  Forall (fun e => stamps_ok e.2) (run_history fuel max_height dbg ops).
+Proof. unfold run_history. apply run_stamps_ok. apply stamps_ok_init. Qed.
+
+Lemma bindM_eq' {A B} (m : M A) (k : A -> M B) s a s1 : m s = (Ok a, s1) -> bindM m k s = k a s1.
+Proof. intros E. unfold bindM. by rewrite E. Qed.
+
+(* recompute_one stamps its node first; whatever happens next (including a panic), the node is still
+   stamped with the current stabilisation number when it is over *)
+Lemma recompute_one_stamps fuel n s x :
+  nodes s !! n = Some x ->
+  let s' := (recompute_one fuel n s).2 in
+  stab_num s' = stab_num s /\ exists x', nodes s' !! n = Some x' /\ n_recomputed_at x' = stab_num s'.
+Proof.
+  intros Hn. unfold recompute_one.
+  erewrite bindM_eq' by reflexivity. erewrite bindM_eq' by reflexivity. erewrite bindM_eq' by reflexivity.
+  match goal with |- context [recompute_body fuel n ?s0] => set (s3 := s0) end.
+  destruct (now_recompute_body fuel n s3) as [T H].
+  cbv zeta. split; [rewrite T; done|].
+  destruct (H n (x <| n_recomputed_at := stab_num s |>)) as (x' & Hx' & Hr).
+  - subst s3. simpl. rewrite list_lookup_alter, Hn. done.
+  - done.
+  - exists x'. split; [done|]. rewrite Hr, T. done.
+Qed.
+
+(* ... and is therefore not stale: nothing that has been stamped so far is later than it *)
+Lemma recompute_one_not_stale fuel n s x :
+  stamps_ok s -> nodes s !! n = Some x ->
+  let s' := (recompute_one fuel n s).2 in
+  exists x', nodes s' !! n = Some x' /\
+    (match node_kind x' with Some (KExpert _) => True | _ => is_stale s' x' = false end).
+Proof.
+  intros Hok Hn. destruct (recompute_one_stamps fuel n s x Hn) as (T & x' & Hx' & Hr).
+  cbv zeta in *. exists x'. split; [done|].
+  assert (stamps_ok (recompute_one fuel n s).2) as Hok' by (by apply (ok_recompute_one fuel n s)).
+  pose proof (stamped_now_not_stale _ n x' Hok' Hx' Hr) as P.
+  destruct (node_kind x') as [[]|]; try done; by apply P.
+Qed.
+
+(* once stamped in the current stabilisation, a node stays stamped — and not stale — through the rest of
+   the propagation phase *)
+Lemma stamped_rest_of_propagation fuel s n x :
+  stamps_ok s -> nodes s !! n = Some x -> n_recomputed_at x = stab_num s ->
+  let s' := (stabilise_loop fuel s).2 in
+  stamps_ok s' /\ stab_num s' = stab_num s /\
+  exists x', nodes s' !! n = Some x' /\ n_recomputed_at x' = stab_num s' /\
+    (match node_kind x' with Some (KExpert _) => True | _ => is_stale s' x' = false end).
+Proof.
+  intros Hok Hn Hr. cbv zeta.
+  assert (stamps_ok (stabilise_loop fuel s).2) as Hok' by (by apply (ok_stabilise_loop fuel s)).
+  destruct (now_stabilise_loop fuel s) as [T H]. destruct (H n x Hn Hr) as (x' & Hx' & Hr').
+  split; [done|]. split; [done|]. exists x'. rewrite <- T in Hr'. split_and!; [done|done|].
+  pose proof (stamped_now_not_stale _ n x' Hok' Hx' Hr') as P.
+  destruct (node_kind x') as [[]|]; try done; by apply P.
+Qed.
